@@ -227,15 +227,20 @@ class BoundedDict(DictMixin):
                     reverse=True
                 )
 
+                # Number of already present elements to keep (the new one
+                # takes the last place); never negative, even if @_min_size
+                # is 0 (default value for a @max_size lower than 3)
+                to_keep = max(self._min_size - 1, 0)
+
                 # Handle callback
                 if self._delete_cb is not None:
-                    for key, _ in most_common[self._min_size - 1:]:
+                    for key, _ in most_common[to_keep:]:
                         self._delete_cb(key)
 
                 # Keep only the most @_min_size used
                 self._data = {key: self._data[key]
-                              for key, _ in most_common[:self._min_size - 1]}
-                self._size = self._min_size
+                              for key, _ in most_common[:to_keep]}
+                self._size = len(self._data) + 1
 
                 # Reset use's counter
                 self._counter = {k: 1 for k in self._data}
